@@ -328,8 +328,12 @@ def _ledger(run):
     hcn = hc_nodes[0] if hc_nodes else None
     # legacy: nothing after the hash
     tail_want = _strip(_fold_names(f"{smsg}[{shl} + 32:]", consts))
+    from sa.canon import canon_sums as _cs
+    len_want = {_strip(_cs(_fold_names(f"len({smsg}) <= {shl} + 32", consts))), _strip(_cs(_fold_names(f"len({smsg}) == {shl} + 32", consts)))}
     tail_ok_edges = [en for en in g.nodes if en.kind in ("T", "F") and en.cond is not None and en.cond.kind == "cond"
-                     and (f"{tail_want} == b''" in edge_texts(en) or f"len({tail_want}) == 0" in edge_texts(en))]
+                     and (f"{tail_want} == b''" in edge_texts(en) or f"len({tail_want}) == 0" in edge_texts(en)
+                          # no byte beyond the hash: the whole message is no longer than header + 32
+                          or any(_strip(_cs(t)) in len_want for t in edge_texts(en)))]
     okt = bool(tail_ok_edges) and hcn is not None and all(g.all_paths_pass(le, hcn, set(tail_ok_edges)) for le in legacy_last) and bool(legacy_last)
     run.check("R1", okt, "legacy message: nothing after the 32-byte hash", key=f"{fn.qualname}|legacy-exact-length",
               where=fn.loc(), message="on the legacy-header path a signer message with extra bytes after the "
